@@ -10,13 +10,13 @@ PROP = 'C04'
 
 
 def Cases(tier):
-  n = int(os.environ.get('VERIF_N', 0)) or (150 if tier == 'quick' else 4000)
+  n = int(os.environ.get('VERIF_N', 0)) or (150 if tier == 'quick' else 1200)
   rng = common.Rng(PROP)
   cases = [genfun.Generate(rng, 'f%d' % i) for i in range(n)]
 
   # directed shapes: made predicates with own rules / own limit, dependency
   # order of functor applications
-  reps = 4 if tier == 'quick' else 60
+  reps = 4 if tier == 'quick' else 30
   for k in range(reps * len(families.C04_FAMILIES)):
     name, fn = families.C04_FAMILIES[k % len(families.C04_FAMILIES)]
     prog, query, feats = fn(rng)
